@@ -50,8 +50,10 @@ def _items(ctx):
 
 def _what(case):
   inp, out = case["inp"], case["out"]
-  return "parse_predicate_formula(%r) -> %s; python ast kinds %s" % (
-    inp["text"], out["exc"] or json.dumps(out["tree"])[:160], ",".join(_short(inp)))
+  off = _short(inp)
+  return "parse_predicate_formula(%r) -> %s; %s" % (
+    inp["text"], out["exc"] or json.dumps(out["tree"])[:160],
+    ("outside the subset: " + ",".join(off)) if off else ("python eval per env: " + json.dumps(case["py"])[:120]))
 
 
 def _short(inp):
@@ -78,12 +80,12 @@ def run(ctx):
           % (len(space["wide"]), len(space["narrow"]), len(space["unsup"]), model["distinct"], model["wall"]))
   extra = {"envs": envs}
   files = fnspec.run_cases("fn_predicate.py", items, ctx.workdir, extra=extra,
-                           nshards=16 if ctx.quick else 32)
+                           nshards=8 if ctx.quick else 32)
   nrand = N_RANDOM[ctx.tier]
   per = 500
   rand_items = [{"rand": ctx.seed * 1000003 + k, "n": per} for k in range(nrand // per)]
   rfiles = fnspec.run_cases("fn_predicate.py", rand_items, ctx.workdir, extra=extra, tag="rand",
-                            nshards=4 if ctx.quick else 16)
+                            nshards=2 if ctx.quick else 8)
   failures, n, wall = fnspec.judge("Trace_Predicate", files + rfiles, ctx.workdir)
   ctx.log("TLC judged %d recorded runs in %.1fs" % (n, wall))
 
